@@ -17,7 +17,7 @@ RULE = (
     "alphabet = base footprint request x every parameter of the solver signature varied one at a time (srf_flx shape, srf_flx values, z, "
     "each of the five profiles, domain, levels (scalar, list, reordered), modes, meas_pt, srf_bg_conc, analytic, halo incl. None vs its "
     "resolved value, precision, footprint off); histories = all ordered pairs A->B->B->A on a fresh directory, random sequences of "
-    "length <= 12, the same sequences split over two processes sharing the directory; faults = every truncation length of stored "
+    "length <= 12, the same sequences split over two processes sharing the directory, 2-4 processes using one directory (same keys) at the same time with a slow writer; faults = every truncation length of stored "
     "entries (thorough: every byte offset; quick: every 5th + all within 64 bytes of either end), random byte corruption, zero-length "
     "and garbage files, SIGKILL at every write/rename syscall of a storing process.  non-trivial = history with >= 2 distinct requests "
     "or a fault actually injected; distinct = distinct (history | fault point)"
@@ -46,6 +46,8 @@ def cases(tier, seed):
         out.append({"seed": seed, "kind": "corrupt", "idx": i, "_cost": 3})
     for j in range(NKILL):
         out.append({"seed": seed, "kind": "kill", "j": j, "_cost": 30})
+    for i in range(4 if tier == "quick" else 24):
+        out.append({"seed": seed, "kind": "concurrent", "idx": i, "_cost": 12})
     return out
 
 
@@ -215,7 +217,89 @@ def check_step(nm, res, ev, sweeps, ref, seen, viol, ctx, counters):
 
 
 def run_case(case):
-    return {"pairs": pairs, "sequence": sequence, "truncate": truncate, "corrupt": corrupt, "kill": kill}[case["kind"]](case)
+    return {"pairs": pairs, "sequence": sequence, "truncate": truncate, "corrupt": corrupt, "kill": kill,
+            "concurrent": concurrent}[case["kind"]](case)
+
+
+HAMMER = (
+    "import sys, os, json, time\n"
+    "from vlib import boot; boot.boot()\n"
+    "import numpy as np\n"
+    "from checks import c15_cache as C\n"
+    "d, names, seed, slow = sys.argv[1], json.loads(sys.argv[2]), int(sys.argv[3]), float(sys.argv[4])\n"
+    "ref = C.reference(set(names))\n"
+    "real = np.savez\n"
+    "def slow_savez(file, *a, **k):\n"
+    "    if isinstance(file, (str, os.PathLike)):\n"
+    "        t = str(file) if str(file).endswith('.npz') else str(file) + '.npz'\n"
+    "        open(t, 'wb').write(b'PK\\x03\\x04')\n"
+    "    time.sleep(slow)\n"
+    "    return real(file, *a, **k)\n"
+    "if slow > 0: np.savez = slow_savez\n"
+    "open(os.path.join(d, 'ready_%d' % os.getpid()), 'w').close()\n"
+    "t0 = time.time()\n"
+    "while not os.path.exists(os.path.join(d, 'go')) and time.time() - t0 < 120: time.sleep(0.005)\n"
+    "rng = np.random.default_rng(seed)\n"
+    "M = C.Monitors(os.path.join(d, 'cache'))\n"
+    "out = {'solves': 0, 'hits': 0, 'misses': 0, 'viol': []}\n"
+    "for step in range(40):\n"
+    "    nm = names[int(rng.integers(len(names)))]\n"
+    "    try:\n"
+    "        res, ev, sw = M.solve(C.build(nm))\n"
+    "    except BaseException as e:\n"
+    "        out['viol'].append({'what': 'concurrent_use_is_fatal', 'request': nm, 'exc': type(e).__name__ + ': ' + str(e)[:100], 'step': step}); continue\n"
+    "    out['solves'] += 1\n"
+    "    out['hits' if ('get', 'hit') in ev else 'misses'] += 1\n"
+    "    if not C.same(res, ref[nm]):\n"
+    "        out['viol'].append({'what': 'cached_run_differs_from_uncached', 'request': nm, 'events': ev, 'step': step, 'concurrent': True})\n"
+    "print('RESULT' + json.dumps(out))\n"
+)
+
+
+def concurrent(case):
+    """Several processes use one cache directory at the same time (same keys), with a slow writer."""
+    import json
+    import shutil
+    import subprocess
+    import sys
+    import tempfile
+    import time
+
+    from vlib import gen
+
+    rng = gen.rng_for(case["seed"], "C15conc", case["idx"])
+    names = [str(x) for x in rng.choice([n for n in variant_names() if n != "dispersion"], size=3, replace=False)]
+    nproc = int(rng.choice([2, 3, 4]))
+    slow = float(rng.choice([0.0, 0.01, 0.03]))
+    d = os.path.abspath(tempfile.mkdtemp(dir=".", prefix="conc_"))
+    viol = []
+    counters = {"concurrent_processes": nproc, "concurrent_solves": 0, "concurrent_hits": 0, "concurrent_misses": 0}
+    try:
+        procs = [subprocess.Popen([sys.executable, "-c", HAMMER, d, json.dumps(names), str(case["seed"] * 1000 + case["idx"] * 10 + k), str(slow)],
+                                  stdout=subprocess.PIPE, stderr=subprocess.PIPE, text=True) for k in range(nproc)]
+        t0 = time.time()
+        while len([f for f in os.listdir(d) if f.startswith("ready_")]) < nproc and time.time() - t0 < 300:
+            time.sleep(0.05)
+        open(os.path.join(d, "go"), "w").close()
+        for p_ in procs:
+            try:
+                so, se = p_.communicate(timeout=900)
+            except subprocess.TimeoutExpired:
+                p_.kill()
+                return {"harness_error": "concurrent cache user did not finish (watchdog)"}
+            line = [l for l in so.splitlines() if l.startswith("RESULT")]
+            if not line:
+                return {"harness_error": "concurrent cache user died: " + se[-400:]}
+            r = json.loads(line[0][6:])
+            counters["concurrent_solves"] += r["solves"]
+            counters["concurrent_hits"] += r["hits"]
+            counters["concurrent_misses"] += r["misses"]
+            viol.extend(dict(v, processes=nproc, slow_writer=slow, requests=names) for v in r["viol"])
+    finally:
+        shutil.rmtree(d, ignore_errors=True)
+    return {"evals": counters["concurrent_solves"], "nontrivial": True, "sig": f"conc|{case['idx']}|{nproc}|{slow}|{names}",
+            "buckets": {"history:concurrent_processes": 1, f"slow_writer:{slow}": 1}, "counters": counters, "violations": viol,
+            "sample": {"processes": nproc, "requests": names, "slow_writer_s": slow, "solves": counters["concurrent_solves"]}}
 
 
 def pairs(case):
